@@ -54,6 +54,11 @@ STRUCT_FAULTS = [
     ("deref-too-deep-2", "Inner { **a: 1, .. }", "**a"),
     ("deref-too-deep-3", "Inner { ***a: 1, .. }", "***a"),
     ("deref-too-deep-1-on-method", "Inner { *a.abs(): 1, .. }", "*a.abs()"),
+    # a REGEX LITERAL against the user's own type that implements Like for another pattern type only: the error is about the
+    # argument of `.like(..)`, which the regex template builds itself (seed C20-12 put a call-site identifier into it)
+    ("regex-literal-on-type-with-other-like-impl", 'Inner { e: =~ "a.c", .. }', '"a.c"'),
+    ("raw-regex-literal-on-type-with-other-like-impl", 'Inner { e: =~ r"^x", .. }', 'r"^x"'),
+    ("like-expr-on-type-with-other-like-impl", 'Inner { e: =~ 5, .. }', "5"),
 ]
 
 
@@ -65,12 +70,13 @@ def make_cases():
             g = tgen.Gen(__import__("random").Random(1))
             wd, wt, wv, wp, ws = P.wrap(pos, g, t, v, pat)
             cases.append(dict(kind=kind, position=pos, decls=wd, type=wt, value=wv, pattern=wp, focus=focus, inner=pat))
-    inner_decl = "#[derive(Debug)] struct Inner { a: i32, xs: Vec<i32> }"
+    inner_decl = ("#[derive(Debug)] struct Em(String);\nimpl Like<Prefix> for Em { fn like(&self, p: &Prefix) -> bool { self.0.starts_with(p.0) } }\n"
+                  "#[derive(Debug)] struct Inner { a: i32, xs: Vec<i32>, e: Em }")
     for (kind, pat, focus) in STRUCT_FAULTS:
         for pos in P.POSITIONS:
             if pos in ("set-elem", "map-value") and False:
                 continue
-            T, E = "Inner", "Inner { a: 1, xs: vec![1] }"
+            T, E = "Inner", "Inner { a: 1, xs: vec![1], e: Em(String::from(\"x\")) }"
 
             class G:
                 def rust_type(self, t):
